@@ -303,7 +303,11 @@ def gen_times(rng, n, y2=False):
     for i in range(n):
         ms = rng.choice([0, 0, 0, 500, 999, rng.randrange(1000)])
         out.append(t + ms)
-        t += 1000 * rng.choice([1, 1, 1, 2, 60, 3600, 86400, 86400 * 31, rng.randint(1, 100000)])
+        steps = [1, 1, 1, 2, 60, 3600, 86400, 86400 * 31, rng.randint(1, 100000), 86400 * 30, 86400 * 28, 86400 * 7]
+        if Y < 2085:
+            # sparse sampling: the same day and month of the following year
+            steps += [86400 * 365, 86400 * 366]
+        t += 1000 * rng.choice(steps)
     return out
 
 
